@@ -7,6 +7,8 @@ import Stevia.Proofs.TreeState
 import Stevia.Proofs.HashSetState
 import Stevia.Proofs.ArraySetState
 import Stevia.Generated.Facts
+import Stevia.Proofs.ExecInv
+import Stevia.Model.ArraySetLayout
 
 namespace Stevia.C10
 open Stevia
@@ -92,6 +94,18 @@ theorem hset_decode_recovers {γ : Type} [DecidableEq γ] (hash : γ → Nat) (v
 /-- Array set: the count fits the buffer and the values up to the count are strictly ascending. -/
 theorem aset_format {κ : Type} [LinOrd κ] {key : α → κ} {P : Nat} {s : ASet α} (h : s.Inv key P) :
     s.len ≤ s.slots ∧ AscK (s.view.map key) := ⟨h.len_le, h.sorted⟩
+
+/-- The executable checks the driver evaluates on every decoded *real* state (`wf-bst`, `wf-bal`,
+    `wf-alloc`; `wf-alloc`, `wf-placed`; `wf-sorted`) are exactly the invariants of the theorems: a real
+    state passes them iff it satisfies `Inv`. -/
+theorem driver_checks_are_the_invariants :
+    (∀ (c : TreeCfg) (s : Tree Int Nat), (c.wrap = true ∨ s.slots < c.W) →
+      (s.Inv c ↔ (T.sortedB s.root.keys = true ∧ s.root.balB = true ∧ s.allocB c = true))) ∧
+    (∀ (hash : Nat → Nat) (s : HSet Nat), s.slots < 4294967295 →
+      (s.Inv hash ↔ (s.allocB = true ∧ s.placedB hash = true))) ∧
+    (∀ (f : AFmt) (s : ASet Nat), s.Inv f.keyOf f.prefixMax ↔ s.wfB f = true) :=
+  ⟨fun c s hw => Tree.inv_iff_exec c s hw, fun hash s hs => HSet.inv_iff_exec hash s hs,
+   fun f s => ASet.inv_iff_exec f s⟩
 
 /-- The layout facts the byte-level model depends on, as extracted from the sources on this run, are
     the documented format: header word order, register order, `initialize` vectors, 1-based
